@@ -708,8 +708,20 @@ func vfGenC10(t *rapid.T) vfC10Case {
 	case 1:
 		c.Stubborn = true
 	}
-	if rapid.IntRange(0, 2).Draw(t, "testrec") == 0 {
+	switch rapid.IntRange(0, 3).Draw(t, "testrec") {
+	case 0:
 		c.TestAt = []int{rapid.IntRange(0, len(c.Sock.Items)/2).Draw(t, "testat")}
+	case 1, 2:
+		// a test recording that starts with a long motion recording and finishes (21 frames) well before it:
+		// later kills find a newer finished recording next to an older one still in progress
+		c.Sock.Cam.FPS = 9
+		c.Sock.Min, c.Sock.Max, c.Sock.Prev, c.Sock.Trigger = 2, 4, 0, 1
+		items := []vfItem{{K: vfItFrame}, {K: vfItFrame}}
+		for i := 0; i < 34; i++ {
+			items = append(items, vfItem{K: vfItFrame, On: true})
+		}
+		c.Sock.Items = append(items, vfItem{K: vfItFrame}, vfItem{K: vfItFrame})
+		c.TestAt = []int{rapid.IntRange(2, 5).Draw(t, "testat2")}
 	}
 	return c
 }
